@@ -6,7 +6,7 @@ use std::path::PathBuf;
 fn cases_for(prop: &str, tier: &str) -> u32 {
     // fixed work per tier: 16 workers x this many generated cases (plus the regression cases)
     let quick: u32 = match prop {
-        "C03" => 5000,
+        "C03" => 10_000,
         _ => 10_000,
     };
     if tier == "thorough" {
